@@ -35,7 +35,7 @@ LEVEL_NOTE = ("Trusted: Coq kernel, extraction, the translator's whitelist, the 
               "CPython's typing registry is cumulative per qualified name: agreement of a *redefined* overloaded name with typing.get_overloads "
               "is stated as a decomposition theorem, not as equality. All theorems are closed under the global context.")
 MODEL = ("Model.C02_run", "run_C02")
-COQ_TARGETS = ["Model/C02_run.vo", "Proofs/C02_params.vo", "Proofs/C02_container.vo", "Proofs/C02_scope.vo", "Proofs/C02_tree.vo"]
+COQ_TARGETS = ["Model/C02_run.vo", "Proofs/C02_params.vo", "Proofs/C02_container.vo", "Proofs/C02_scope.vo", "Proofs/C02_tree.vo", "Proofs/C02_flow.vo"]
 TRANSLATOR_NAME = "harness/translate/c02_tables.py"
 RULE = ("signatures: exhaustive count vectors (posonly,args,vararg?,kwonly,kwarg?,#defaults,kw-default mask) with each list <=3 "
         "(quick: <=2 plus a seeded sample of <=3), x annotations on/off, rotating contexts def/async def/method/lambda default; seeded random "
@@ -855,6 +855,12 @@ def random_stmts(rng, n, scope, depth=0):
         if r < 0.06 and depth < 2:
             out.append((rng.choice(["if_t", "try", "with"]), random_stmts(rng, rng.randint(1, 3), scope, depth + 1)))
             continue
+        if r < 0.10 and depth < 2:
+            # a branch CPython does not run (Griffe visits it all the same); whether it stays invisible is decided by the model's dead_ok
+            dead = random_stmts(rng, rng.randint(1, 3), scope, depth + 1)
+            live = name_block(rng, dead[0][1], scope) if dead[0][0] in ("def", "bind") and rng.random() < 0.6 else random_stmts(rng, rng.randint(0, 3), scope, depth + 1)
+            out.append(("if_else", dead, live))
+            continue
         if r < 0.14:
             out.append(("bind", name, rng.choice(["class", "import"])))
             continue
@@ -1344,6 +1350,8 @@ def check_trees(ctx, n, use_model=True):
         m_spec = ctx.model([["tree-spec", "m", tree] for _, _, tree in rendered])
         flat = [(i, sp) for i, (_, scopes, _) in enumerate(rendered) for sp in scopes]
         m_cpy = dict(zip(flat, ctx.model([["cpy", model_items_at(rendered[i][1][sp], sp, only_live=True)] for i, sp in flat])))
+        m_flow = dict(zip(flat, ctx.model([["flow", [[1 if it[4] else 0, mi] for it, mi in zip(rendered[i][1][sp], model_items_at(rendered[i][1][sp], sp))]]
+                                           for i, sp in flat])))
     names = set(NAMES) | set(CLASS_NAMES)
     for i, ((stream, stmts), (src, scopes, tree)) in enumerate(zip(cases, rendered)):
         if use_model:
@@ -1427,6 +1435,17 @@ def check_trees(ctx, n, use_model=True):
             if outside:
                 ctx.count("tree_direct_skipped_accessor_resolves_outside")
                 continue
+            if any(not it[4] for it in items):
+                # untaken branches in this scope: compare only when they are invisible (dead_ok, theorem C02_dead_code_invisible)
+                if use_model:
+                    ok_flow = bool(m_flow[(i, sp)])
+                    ctx.observe("tree_dead_ok", f"{stream}:{ok_flow}")
+                    if not ok_flow:
+                        if stream == "idiom":
+                            ctx.tie_failure("harness", "an idiomatic class/module body with an untaken branch is refused by dead_ok", {"scope": sp}, {"source": src})
+                        continue
+                elif stream != "idiom":
+                    continue
             bad = direct_body_check(items, impl[sp], finals[sp], orc)
             ctx.count("tree_direct_checks")
             if bad:
@@ -1529,9 +1548,11 @@ def check_bodies(ctx, n_random, n_idiom, n_function, use_model=True, cases=None)
     if use_model:
         m_scope = ctx.model([["items", c[1], model_items(items, c[1])] for c, (src, items) in zip(cases, rendered)])
         m_cpy = ctx.model([["cpy", model_items(items, c[1], only_live=True)] for c, (src, items) in zip(cases, rendered)])
+        m_flow = ctx.model([["flow", [[1 if it[4] else 0, mi] for it, mi in zip(items, model_items(items, c[1]))]] for c, (src, items) in zip(cases, rendered)])
     else:
         m_scope = m_cpy = [None] * len(cases)
-    for (stream, scope, stmts), (src, items), mo, mc in zip(cases, rendered, m_scope, m_cpy):
+        m_flow = [None] * len(cases)
+    for (stream, scope, stmts), (src, items), mo, mc, mf in zip(cases, rendered, m_scope, m_cpy, m_flow):
         defs = list(flat_defs(stmts))
         if use_model:
             ctx.case({"stream": stream, "scope": scope, "body": stmts}, any(d[2] for d in defs))
@@ -1602,6 +1623,20 @@ def check_bodies(ctx, n_random, n_idiom, n_function, use_model=True, cases=None)
         if not all(supported_def(it[2], it[3]) for it in items if it[0] == "def"):
             ctx.count("direct_skipped_unsupported_decorator_stack")
             continue
+        has_dead = any(not it[4] for it in items)
+        if has_dead:
+            # Griffe is flow-insensitive: its view of the whole body must equal CPython's view of the executed part exactly when
+            # the dead statements are invisible (theorem C02_dead_code_invisible); dead_ok is computed by the extracted model
+            if use_model:
+                ctx.observe("dead_ok", f"{stream}:{bool(mf)}")
+                if not mf:
+                    if stream in ("idiom", "corpus"):
+                        ctx.tie_failure("harness", "an idiomatic body with an untaken branch is refused by dead_ok", {"dead_ok": mf}, {"source": src})
+                    # how sharp the (sufficient) predicate is: does a refused body actually differ from CPython's view?
+                    ctx.observe("refused_body_differs_from_cpython", bool(direct_body_check(items, impl, final, orc)))
+                    continue
+            elif stream not in ("idiom", "corpus"):
+                continue          # without the model only the bodies that are invisible by construction are compared
         bad = direct_body_check(items, impl, final, orc)
         ctx.count("body_direct_checks")
         if bad:
